@@ -2268,6 +2268,10 @@ class subarray : public const_subarray<T, D, ElementPtr, Layout> {
 	BOOST_MULTI_HD constexpr auto partitioned(size_type size)      & -> subarray<T, D+1, typename subarray::element_ptr> { return this->partitioned_aux_(size); }
 	BOOST_MULTI_HD constexpr auto partitioned(size_type size)     && -> subarray<T, D+1, typename subarray::element_ptr> { return this->partitioned_aux_(size); }
 
+	constexpr auto sliced(index first, index last, difference_type stride) const& { return static_cast<const_subarray<T, D, ElementPtr, Layout> const&>(*this).sliced(first, last, stride); }
+	constexpr auto sliced(index first, index last, difference_type stride)      & -> subarray { return sliced(first, last).strided(stride); }
+	constexpr auto sliced(index first, index last, difference_type stride)     && -> subarray { return sliced(first, last).strided(stride); }
+
 	constexpr auto chunked(size_type count) const& { return static_cast<const_subarray<T, D, ElementPtr, Layout> const&>(*this).chunked(count); }
 	BOOST_MULTI_HD constexpr auto chunked(size_type count)  & -> subarray<T, D+1, typename subarray::element_ptr> { return this->chunked_aux_(count); }
 	BOOST_MULTI_HD constexpr auto chunked(size_type count) && -> subarray<T, D+1, typename subarray::element_ptr> { return this->chunked_aux_(count); }
